@@ -91,6 +91,26 @@ var lemmas = []lemma{
 	},
 }
 
+func init() {
+	cells := "(forall ((t Int)) (=> (and (<= 0 t) (< t m)) (= (select a2 (+ L t)) (select p t))))"
+	straddle := "(=> (>= L 2) (not (isM a2 (- L 2)))) (=> (>= L 1) (not (isM a2 (- L 1))))"
+	lemmas = append(lemmas,
+		lemma{
+			// depth over an appended sequence p adds up, if no marker straddles the junction
+			Name:   "DepShift",
+			Params: [][2]string{{"a2", "arr"}, {"p", "arr"}, {"L", "int"}, {"m", "int"}},
+			Pre:    "(and (<= 0 L) (<= 0 m) " + cells + " " + straddle + ")",
+			Post:   []string{"(forall ((j Int)) (=> (and (<= 0 j) (<= j m)) (= (dep a2 (+ L j)) (+ (dep a2 L) (dep p j)))))"},
+		},
+		lemma{
+			// appending a closed well-formed fragment to a closed, clean-ended well-formed string
+			Name:   "ConcatWF",
+			Params: [][2]string{{"a", "arr"}, {"a2", "arr"}, {"p", "arr"}, {"L", "int"}, {"m", "int"}},
+			Pre:    "(and (<= 0 L) (<= 0 m) (sameBytes a2 a L) " + cells + " (WFP a L) (= (dep a L) 0) (clean a L) (WFP p m) (= (dep p m) 0))",
+			Post:   []string{"(= (dep a2 (+ L m)) 0)", "(WFP a2 (+ L m))", "(=> (and (LS a L) (LS p m)) (LS a2 (+ L m)))"},
+		})
+}
+
 func lemmaByName(n string) *lemma {
 	for i := range lemmas {
 		if lemmas[i].Name == n {
@@ -151,10 +171,50 @@ func inductionQueries() []lemmaQuery {
 	}
 }
 
+func customQueries() []lemmaQuery {
+	// DepShift by induction on m (goal skolemised at j; hints: definitions at the two points,
+	// the induction hypothesis at j-1, the three cells read by depStep).
+	sh := `
+(declare-const a2 (Array Int Int)) (declare-const p (Array Int Int)) (declare-const L Int) (declare-const m Int)
+(define-fun pre ((k Int)) Bool (L_DepShift_pre a2 p L k))
+(define-fun post ((k Int)) Bool (L_DepShift_post a2 p L k))
+(declare-const j Int)
+(assert (and (<= 0 j) (<= j m)))
+(assert (not (= (dep a2 (+ L j)) (+ (dep a2 L) (dep p j)))))
+` + unfoldHint("a2", "(+ L j)") + unfoldHint("p", "j")
+	shCells := ""
+	for _, d := range []string{"1", "2", "3"} {
+		shCells += fmt.Sprintf("(assert (=> (and (<= 0 (- j %s)) (< (- j %s) m)) (= (select a2 (+ L (- j %s))) (select p (- j %s)))))\n", d, d, d, d)
+	}
+	shIH := "(assert (=> (and (<= 0 (- j 1)) (<= (- j 1) (- m 1))) (= (dep a2 (+ L (- j 1))) (+ (dep a2 L) (dep p (- j 1))))))\n"
+	// ConcatWF: goals skolemised by hand, with the shifted instances of WFP(p)/LS(p) as hints
+	cw := `
+(declare-const a (Array Int Int)) (declare-const a2 (Array Int Int)) (declare-const p (Array Int Int)) (declare-const L Int) (declare-const m Int)
+(assert (L_ConcatWF_pre a a2 p L m))
+(assert (=> (L_DepCong_pre a2 a L) (L_DepCong_post a2 a L)))
+(assert (=> (L_DepShift_pre a2 p L m) (L_DepShift_post a2 p L m)))
+(declare-const j Int)
+`
+	cells3 := ""
+	for _, d := range []string{"0", "1", "2"} {
+		cells3 += fmt.Sprintf("(assert (=> (and (<= 0 (+ (- j L) %s)) (< (+ (- j L) %s) m)) (= (select a2 (+ L (+ (- j L) %s))) (select p (+ (- j L) %s)))))\n", d, d, d, d)
+	}
+	return []lemmaQuery{
+		{"DepShift.base", "\n(declare-const a2 (Array Int Int)) (declare-const p (Array Int Int)) (declare-const L Int) (declare-const m Int)\n(assert (<= m 0))\n(assert (L_DepShift_pre a2 p L m))\n(declare-const j Int)\n(assert (and (<= 0 j) (<= j m)))\n(assert (not (= (dep a2 (+ L j)) (+ (dep a2 L) (dep p j)))))\n" + unfoldHint("p", "j")},
+		{"DepShift.mono", "\n(declare-const a2 (Array Int Int)) (declare-const p (Array Int Int)) (declare-const L Int) (declare-const m Int)\n(assert (>= m 1))\n(assert (L_DepShift_pre a2 p L m))\n(assert (not (L_DepShift_pre a2 p L (- m 1))))\n"},
+		{"DepShift.step", sh + "(assert (>= m 1))\n(assert (post (- m 1)))\n(assert (pre m))\n" + shIH + shCells},
+		{"ConcatWF.post1", cw + "(assert (not (= (dep a2 (+ L m)) 0)))\n"},
+		// a start marker at j: old region, straddling (excluded by clean), or inside p at j-L
+		{"ConcatWF.post2a", cw + "(assert (and (<= 0 j) (<= (+ j 3) (+ L m)) (isS a2 j)))\n(assert (not (= (dep a2 j) 0)))\n(assert (=> (and (<= 0 (- j L)) (<= (+ (- j L) 3) m) (isS p (- j L))) (= (dep p (- j L)) 0)))\n" + cells3},
+		{"ConcatWF.post2b", cw + "(assert (and (<= 0 j) (<= (+ j 3) (+ L m)) (isE a2 j)))\n(assert (not (= (dep a2 j) 1)))\n(assert (=> (and (<= 0 (- j L)) (<= (+ (- j L) 3) m) (isE p (- j L))) (= (dep p (- j L)) 1)))\n" + cells3},
+		{"ConcatWF.post3", cw + "(assert (LS a L))\n(assert (LS p m))\n(assert (and (<= 0 j) (< j (+ L m)) (= (select a2 j) 10)))\n(assert (not (= (dep a2 j) 0)))\n(assert (=> (and (<= 0 (- j L)) (< (- j L) m) (= (select p (- j L)) 10)) (= (dep p (- j L)) 0)))\n" + cells3},
+	}
+}
+
 func lemmaQueries() []lemmaQuery {
-	out := inductionQueries()
+	out := append(inductionQueries(), customQueries()...)
 	for _, l := range lemmas {
-		if l.Name == "DepCong" || l.Name == "DepPlain" {
+		if l.Name == "DepCong" || l.Name == "DepPlain" || l.Name == "DepShift" || l.Name == "ConcatWF" {
 			continue
 		}
 		var decl strings.Builder
